@@ -407,6 +407,27 @@ func (in *Interp) tableSelect(vals []*Term, idx *Term) *Term {
 		}
 	}
 	iw := idx.Sort.W
+	if allConst {
+		// composition with an inner constant-table lookup: T2[T1[x]] = T12[x]
+		inner := idx
+		for inner.Op == OpZext {
+			inner = inner.Args[0]
+		}
+		if ti, ok := in.ts.Tables[inner.ID]; ok {
+			comp := make([]*Term, len(ti.Vals))
+			okc := true
+			for i, v := range ti.Vals {
+				if v >= uint64(n) {
+					okc = false
+					break
+				}
+				comp[i] = vals[v]
+			}
+			if okc {
+				return in.tableSelect(comp, ti.Idx)
+			}
+		}
+	}
 	type run struct {
 		lo, hi int // inclusive
 		affine bool
@@ -454,6 +475,13 @@ func (in *Interp) tableSelect(vals []*Term, idx *Term) *Term {
 				c = ts.And(ts.Ule(ts.Const(iw, uint64(r.lo)), idx), ts.Ule(idx, ts.Const(iw, uint64(r.hi))))
 			}
 			res = ts.Ite(c, mkv(r), res)
+		}
+		if !res.IsConst() {
+			tv := make([]uint64, n)
+			for i, v := range vals {
+				tv[i] = v.Val
+			}
+			in.ts.Tables[res.ID] = TableInfo{Vals: tv, Idx: idx}
 		}
 		return res
 	}
